@@ -260,6 +260,19 @@ func runMetaCase(c *metaCase) (sig, msg, outcome string) {
 				n, _ := strconv.Atoi(op.Arg)
 				a.Size += int64(n)
 				a.MTime = -1 // a content write may update the modification time
+			case "hold":
+				// a read-write handle on the file stays open across the following calls
+				e, _ := s.apply(fsOp{Kind: "hold", Path: op.Path})
+				oerr = e
+			case "heldwrite":
+				e, _ := s.apply(fsOp{Kind: "heldwrite", Off: "eof", Len: op.Arg})
+				oerr = e
+				n, _ := strconv.Atoi(op.Arg)
+				a.Size += int64(n)
+				a.MTime = -1
+			case "release":
+				e, _ := s.apply(fsOp{Kind: "release"})
+				oerr = e
 			case "symlink":
 				n, _ := strconv.Atoi(op.Arg)
 				tg := strings.Repeat("t", n)
@@ -564,6 +577,23 @@ func enumC19(quick bool) []metaCase {
 				}
 			}
 		}
+	}
+	// the same attribute calls made by path while a read-write handle on the file is open, which is closed afterwards (with and
+	// without a write through that handle before or after the call)
+	for _, x := range menu[:10] {
+		if x.Path != "a" && x.Path != "b" {
+			continue
+		}
+		h, w, rel := metaOp{"hold", x.Path, ""}, metaOp{"heldwrite", x.Path, "700"}, metaOp{"release", x.Path, ""}
+		cs = append(cs, metaCase{FS: "ext4", Ops: []metaOp{h, x, rel}}, metaCase{FS: "ext4", Ops: []metaOp{h, w, x, rel}}, metaCase{FS: "ext4", Ops: []metaOp{h, x, w, rel}})
+	}
+	for _, fs := range []string{"fat12", "fat32"} {
+		for _, k := range []string{"sethidden", "setreadonly", "setarchive"} {
+			h, w, rel := metaOp{"hold", "a", ""}, metaOp{"heldwrite", "a", "700"}, metaOp{"release", "a", ""}
+			cs = append(cs, metaCase{FS: fs, Ops: []metaOp{h, {k, "a", "on"}, rel}}, metaCase{FS: fs, Ops: []metaOp{h, {k, "a", "on"}, w, rel}})
+		}
+		h, w, rel := metaOp{"hold", "a", ""}, metaOp{"heldwrite", "a", "700"}, metaOp{"release", "a", ""}
+		cs = append(cs, metaCase{FS: fs, Ops: []metaOp{h, {"chtimes", "a", "1700000001.0"}, rel}}, metaCase{FS: fs, Ops: []metaOp{h, w, {"chtimes", "b", "1700000001.0"}, rel}})
 	}
 	// FAT: times over the representable range and every subset of the attribute flags
 	fatTimes := []string{"315532800.0", "315532801.0", "315532803.0", "1700000001.0", "4354819198.0", "2147483648.0", "946684799.0"}
